@@ -24,7 +24,7 @@ use std::{
 use tokio::io::{AsyncRead, AsyncWrite, ReadBuf};
 
 /// Zero-copy cache entry with reference counting and memory sharing
-#[derive(Debug, Clone)]
+#[derive(Debug)]
 pub struct ZeroCopyEntry {
     /// Shared data buffer (reference counted)
     data: Bytes,
@@ -120,6 +120,19 @@ impl ZeroCopyEntry {
     /// Check if entry has expired
     pub fn is_expired(&self, ttl: std::time::Duration) -> bool {
         self.created_at.elapsed() > ttl
+    }
+}
+
+impl Clone for ZeroCopyEntry {
+    /// Zero-copy clone: shares the data and counts the new handle
+    fn clone(&self) -> Self {
+        self.ref_count.fetch_add(1, Ordering::Relaxed);
+        Self {
+            data: self.data.clone(),
+            ref_count: Arc::clone(&self.ref_count),
+            original_size: self.original_size,
+            created_at: self.created_at,
+        }
     }
 }
 
